@@ -32,7 +32,16 @@ class Finding(object):
         self.kind = kind      # 'own' (a write of f precedes the raise) | 'inherited' (callee's own lateness)
 
     def via(self):
-        return self.site.chain[0].split(":", 1)[1] if self.site.chain else "raise"
+        """the call (or raise) of this function that fails; hops through private helpers of the same class / module are
+        skipped, so that moving a block into such a helper does not rename the finding."""
+        for c in self.site.chain:
+            fn, call = c.split(":", 1)
+            callee = call.split(" ")[0].split(".")[-1].split("(")[0]
+            recv = call.rsplit(".", 1)[0] if "." in call else ""
+            if callee.startswith("_") and not callee.startswith("__") and recv in ("self", "cls", "") and not call.endswith("="):
+                continue
+            return call
+        return "raise"
 
     def key(self):
         """rule-and-construct key without positions: function, the call (or raise) in it that fails, exception class"""
